@@ -146,16 +146,35 @@ func compareQueryCore(id string, p Path, shape string, doc any, c Case, visited 
 	cfg := cfgOf(c)
 	out := implQuery(parsed, doc, cfg)
 
+	keyPerm := 0
 	runRef := func(quirk string) refOut {
 		rc := newRefCtx(p.Strict, doc, map[string]any(cfg.vars), c.TZ, zoneOf(c.Zone))
 		rc.visited = visited
 		rc.quirk = quirk
+		rc.keyPerm = keyPerm
 		ro := refQuery(p, rc)
 		st.transitions += rc.transitions
 		return ro
 	}
 	ro := runRef("")
 	f := judgeQuery(id, shape, out, ro, c, &st)
+	if f != nil && ro.multiObj {
+		// The outcome may depend on the order in which a wildcard met the members of an object (an
+		// early exit, or which of an item and an error comes first). Go map order is open: the
+		// implementation is right if it agrees with the reference under some member order.
+		perms := 1
+		for i := 2; i <= ro.maxObj && i <= 4; i++ {
+			perms *= i
+		}
+		for keyPerm = 1; keyPerm < perms; keyPerm++ {
+			var st2 cmpStats
+			if judgeQuery(id, shape, out, runRef(""), c, &st2) == nil {
+				st.outcome = "ok under another object member order"
+				return nil, st
+			}
+		}
+		keyPerm = 0
+	}
 	if f != nil {
 		// Does the implementation behave exactly like the reference with one recorded
 		// defect switched on? Then it is that known finding, not a new violation.
